@@ -24,6 +24,10 @@ CLAIMED = {
             "For every signature, spec list and valid binding the wrapped function observes exactly the per-parameter specification (declared-unit magnitudes, '=A' references, defaults, keywords), independent of delivery mode; error classes, return re-wrapping, decoration-time arity check and check_iff are theorems. The model is compared with pint on thousands of generated plans (incl. malformed) and pint alone is checked against q.to(unit).magnitude computed in a pristine registry.",
             TB + " Conversion is a record field of the model (unit system), instantiated by a 45-name table; keyword-only/*args parameters, arrays and the with_context decorator are not covered. F23/F24 were repaired by fix: commits.",
             "DESIGN.md §4 C17"),
+    "C18": ("Coq proof over a model of the data crossing copy/pickle/tuple boundaries and the registry-identity rule + exception table regenerated from the source (T5) + differential correspondence incl. fresh-subprocess unpickling + round-trip oracles",
+            "tuple/state round trips, unpickle∘reduce = id whenever names resolve (else UndefinedUnit, never another unit; exactly the prefixed names get registered), exception round trip for every class of the regenerated table (finite vm_compute theorem + general theorem under a decidable guard) and cross-registry refusal are Coq theorems; K runs protocols 0-5, every magnitude type, every exception class, fresh-process unpickling histories, registry pairs (fresh/deep-copied/application/lazy) and cross-registry operators on the real code.",
+            TB + " pickle/copy/object identity are CPython's: deepcopy independence and LazyRegistry equivalence are partial theorems, covered beyond that by K only. F17, F36-F38 were repaired by fix: commits.",
+            "DESIGN.md §4 C18"),
 }
 PENDING = "check not built yet in this round (planned, see DESIGN.md §4); not claimed until its model, theorems and correspondence exist"
 
